@@ -141,7 +141,12 @@ func (s *Slice[T]) splice(start, deleteCount int, insert ...T) ([]T, error) {
 	removed := make([]T, deleteCount)
 	copy(removed, s.elements[start:start+deleteCount])
 
-	s.elements = append(s.elements[:start], append(insert, s.elements[start+deleteCount:]...)...)
+	// Assemble the new tail in fresh storage: appending to the caller's insert
+	// slice would overwrite the spare capacity of its backing array.
+	tail := make([]T, 0, len(insert)+len(s.elements)-start-deleteCount)
+	tail = append(tail, insert...)
+	tail = append(tail, s.elements[start+deleteCount:]...)
+	s.elements = append(s.elements[:start], tail...)
 	return removed, nil
 }
 
